@@ -272,6 +272,28 @@ def check_case(case) -> Result:
     if rep.startswith("mps"):
         h2_abs = np.sqrt(nt - 1) * 1e-5 + 1e-7 * float(np.linalg.norm(H_full @ H_full))
 
+    # ---- Occupation / CorrelationMatrix with an explicit `one_state` (Pulser: "the eigenstate whose population is
+    # measured"): the population of THAT level, per atom (two-level ground-rydberg cases; level chosen from the case seed)
+    if d == 2 and kind == "rydberg":
+        os_ = ("r", "g")[case["seed"] % 2]
+        proj = np.zeros((2, 2), dtype=complex)
+        lvl = 1 if os_ == "r" else 0
+        proj[lvl, lvl] = 1
+        with warnings.catch_warnings():
+            warnings.simplefilter("ignore")
+            o2 = [pb.Occupation(evaluation_times=[1.0], one_state=os_), pb.CorrelationMatrix(evaluation_times=[1.0], one_state=os_)]
+            cfg2 = cut(e2e.sv_config if rep in ("sv", "dm") else e2e.mps_config, observables=o2)
+        pops = [dense.site_op(proj, i, nt, 2) for i in range(nt)]
+        for o in cfg2.observables:
+            g2 = e2e.to_np(cut(o.apply, config=cfg2, state=state, hamiltonian=ham))
+            w2 = np.array([np.trace(pops[i] @ rho_full).real for i in range(nt)]) if o.tag == "occupation" else \
+                np.array([[np.trace(pops[i] @ pops[j] @ rho_full).real for j in range(nt)] for i in range(nt)])
+            if g2.shape != w2.shape or np.abs(g2 - w2).max() > 1e-9:
+                r.fail(f"one_state_ignored:{o.tag}" if os_ == "g" else f"differs_from_definition:{o.tag}:{rep}:one_state_r",
+                       f"{o.tag}(one_state={os_!r}) on {rep}: got {np.round(np.real(g2), 5).tolist() if g2.size < 10 else '...'} "
+                       f"want the population of |{os_}> {np.round(w2, 5).tolist() if w2.size < 10 else '...'}")
+        r.label("one_state:" + os_)
+
     for o in cfg.observables:
         tag = o.tag
         got = cut(o.apply, config=cfg, state=state, hamiltonian=ham)
